@@ -13,6 +13,8 @@
    State: the clock, passAt, the instant of the next tick, the number of buffered elements and the instant the OLDEST of them
    was accepted (-1: none). C10 reads: n > 0 => now - oldest < tmo + per, and tmo + per <= tmo*(1 + 1/d) because
    per = tmo div d <= tmo/d. Everything is linear.
+   The timing clause of C09 rides along (ghosts lastOut, c09ok): a slice cut short by the ticker leaves no earlier than tmo
+   after the previous delivery, because passAt is never older than that delivery.
 
    Twins (derived by text substitution in lib/join.py, each must yield a counter-example): the three timing changes the
    independent agents seeded - passAt reset on an arriving element when the timeout has already expired (C10-a), a tick
@@ -36,34 +38,43 @@ VARIABLES
   \* @type: Int;
   n,
   \* @type: Int;
-  oldest
+  oldest,
+  \* @type: Int;
+  lastOut,      \* ghost: instant of the previous delivery (creation: 0)
+  \* @type: Bool;
+  c09ok         \* ghost: every short slice so far left no earlier than tmo after the previous delivery
 
 Init ==
   /\ tmo \in Int /\ per \in Int /\ js \in Int /\ tmo > 0 /\ per > 0 /\ per <= tmo /\ js >= 1
-  /\ now = 0 /\ passAt = 0 /\ nextTick = per /\ n = 0 /\ oldest = -1
+  /\ now = 0 /\ passAt = 0 /\ nextTick = per /\ n = 0 /\ oldest = -1 /\ lastOut = 0 /\ c09ok = TRUE
 
 Accept ==     \* case item := <-input: process(item)
   /\ IF n + 1 >= js
-       THEN n' = 0 /\ oldest' = -1 /\ passAt' = now                 \* pass(): send, resetJoin, resetPassAt
-       ELSE n' = n + 1 /\ oldest' = (IF n = 0 THEN now ELSE oldest) /\ passAt' = passAt
-  /\ UNCHANGED <<tmo, per, js, now, nextTick>>
+       THEN n' = 0 /\ oldest' = -1 /\ passAt' = now /\ lastOut' = now    \* pass(): send a FULL slice, resetJoin, resetPassAt
+       ELSE n' = n + 1 /\ oldest' = (IF n = 0 THEN now ELSE oldest) /\ passAt' = passAt /\ lastOut' = lastOut
+  /\ UNCHANGED <<tmo, per, js, now, nextTick, c09ok>>
 
-Tick ==       \* case <-ticker.C
+Timeouted == now - passAt >= tmo        \* isTimeouted()
+
+Tick ==       \* case <-ticker.C: if isTimeouted() { pass() }
   /\ now = nextTick
   /\ nextTick' = nextTick + per
-  /\ IF now - passAt >= tmo
-       THEN n' = 0 /\ oldest' = -1 /\ passAt' = now                 \* pass() with or without buffered elements
-       ELSE UNCHANGED <<n, oldest, passAt>>
+  /\ IF Timeouted THEN
+       /\ n' = 0 /\ oldest' = -1 /\ passAt' = now                  \* pass() with or without buffered elements
+       /\ lastOut' = (IF n > 0 THEN now ELSE lastOut)              \* n > 0: a SHORT slice leaves (n < js) - the C09 clause
+       /\ c09ok' = (c09ok /\ (n > 0 => now - lastOut >= tmo))
+     ELSE UNCHANGED <<n, oldest, passAt, lastOut, c09ok>>
   /\ UNCHANGED <<tmo, per, js, now>>
 
 Advance ==
   /\ \E d \in Int : d > 0 /\ now + d <= nextTick /\ now' = now + d
-  /\ UNCHANGED <<tmo, per, js, passAt, nextTick, n, oldest>>
+  /\ UNCHANGED <<tmo, per, js, passAt, nextTick, n, oldest, lastOut, c09ok>>
 
 Next == Accept \/ Tick \/ Advance
 
 \* ---------------------------------------------------------------- properties
 C10_Bound == n > 0 => now - oldest < tmo + per
+C09_Short == c09ok        \* a non-maximal, non-final slice is delivered no earlier than Timeout after the previous delivery (or creation)
 
 IndInv ==
   /\ tmo > 0 /\ per > 0 /\ per <= tmo /\ js >= 1
@@ -74,8 +85,11 @@ IndInv ==
   /\ (n = 0 <=> oldest = -1)
   /\ (n > 0 => passAt <= oldest /\ oldest <= now)
   /\ C10_Bound
+  /\ lastOut >= 0 /\ lastOut <= passAt      \* passAt is reset at every delivery (and at empty timeouts): never older than the last delivery
+  /\ C09_Short
 
 IndInit ==
   /\ tmo \in Int /\ per \in Int /\ js \in Int /\ now \in Int /\ passAt \in Int /\ nextTick \in Int /\ n \in Int /\ oldest \in Int
+  /\ lastOut \in Int /\ c09ok \in BOOLEAN
   /\ IndInv
 =========================================================================
